@@ -843,6 +843,53 @@ example : digestAuth f21P f21Cfg (cs! "GET") 601 (some okHdr) = respond401 f21P 
 /-- the same header sent with another method: plain 401 -/
 example : digestAuth f21P f21Cfg (cs! "POST") 5 (some okHdr) = respond401 f21P f21Cfg 5 false := by decide +kernel
 
+/-! ### non-vacuity of the client theorems: a concrete field list meeting every hypothesis -/
+
+def okFs : List Fld :=
+  [.quoted (cs! "username") (cs! "u"), .quoted (cs! "realm") (cs! "R"), .quoted (cs! "nonce") (cs! "1:1:R:K"),
+   .quoted (cs! "uri") (cs! "/"), .quoted (cs! "response") (cs! "u:R:p:1:1:R:K:1:c:auth:GET:/"),
+   .token (cs! "qop") (cs! "auth"), .token (cs! "nc") (cs! "1"), .quoted (cs! "cnonce") (cs! "c")]
+
+theorem goodKey_of (k : Str) (h1 : k ≠ []) (h2 : ∀ c ∈ k, c ≠ ',' ∧ c ≠ '"' ∧ c ≠ '=' ∧ isSpace c = false) :
+    GoodKey k := ⟨h1, h2⟩
+
+theorem okFs_good : ∀ f ∈ okFs, f.Good := by
+  intro f hf
+  simp only [okFs, List.mem_cons, List.not_mem_nil, or_false] at hf
+  rcases hf with rfl | rfl | rfl | rfl | rfl | rfl | rfl | rfl
+  · exact goodKey_of _ (by decide) (by decide)
+  · exact goodKey_of _ (by decide) (by decide)
+  · exact goodKey_of _ (by decide) (by decide)
+  · exact goodKey_of _ (by decide) (by decide)
+  · exact goodKey_of _ (by decide) (by decide)
+  · exact ⟨goodKey_of _ (by decide) (by decide), ⟨by decide, by decide⟩⟩
+  · exact ⟨goodKey_of _ (by decide) (by decide), ⟨by decide, by decide⟩⟩
+  · exact goodKey_of _ (by decide) (by decide)
+
+theorem okFs_valid : Valid (fieldsOf (okFs.map Fld.pair)) :=
+  ⟨Or.inl (by decide), by decide, by decide, by decide, by decide, by decide,
+    Or.inr ⟨Or.inl (by decide), by decide, by decide⟩⟩
+
+/-- every hypothesis of `digest_rfc2617_client_latin1` is met by `okFs` (identity hash, plain store `u ↦ p`) -/
+example : digestAuth f21P f21Cfg (cs! "GET") 5 (some (cs! "Digest " ++ serialise okFs)) = .grant (cs! "u") :=
+  digest_rfc2617_client_latin1 f21P f21Cfg (cs! "GET") 5 okFs (cs! "u") (cs! "u:R:p") (cs! "1") 1
+    okFs_good (by decide +kernel) (fun _ => Or.inl rfl) okFs_valid (by decide) (Or.inr (by decide)) (by decide)
+    (by decide) (by decide) (by decide) (by decide) (by decide +kernel)
+
+/-- … and `Accepts` is inhabited -/
+example : ∃ a, Accepts f21P f21Cfg (cs! "GET") 5 okHdr a (cs! "u") := by
+  obtain ⟨h, a, he, acc⟩ := (digest_grant_iff f21P f21Cfg (cs! "GET") 5 (some okHdr) (cs! "u")).mp (by decide +kernel)
+  cases he
+  exact ⟨a, acc⟩
+
+/-- hypotheses of `basic_rfc7617_client_utf8`: user `rené`, password `p:w`, identity NFC -/
+example : basicAuth ⟨id, CpModel.AuthPrims.b64decode, CpModel.AuthPrims.utf8Decode, id⟩
+    ⟨cs! "R", [(cs! "rené", cs! "p:w")], cs! "utf-8"⟩
+    (some (cs! "Basic " ++ CpModel.AuthPrims.b64encode (CpModel.AuthPrims.utf8Encode (cs! "rené" ++ ':' :: cs! "p:w")))) =
+    .grant (cs! "rené") := by
+  rw [basic_rfc7617_client_utf8 id id _ (by decide) (cs! "rené") (cs! "p:w") (by decide) rfl]
+  decide
+
 /-! ### tool registration (generated from the live `cherrypy.tools`) -/
 
 /-- both tools are hooked at `before_handler` (any priority there runs before the page handler; the priority itself,
